@@ -165,6 +165,12 @@ KERNELS = [
          pick=('if-chain-assign', 'max_pieces'), params=[('size', 'Int')], ret='Int'),
     dict(name='calcClamp', file='torf/_torrent.py', func='Torrent.calculate_piece_size', pick=('return',),
          params=[('piece_size', 'Int'), ('min_size', 'Int'), ('max_size', 'Int')], ret='Int'),
+    # --- Torrent.write (C17): when the call is refused before anything else happens, and whether write_stream rewinds
+    dict(name='writeRefused', file='torf/_torrent.py', func='Torrent.write', pick=('if-test-guarding', 'errno.EEXIST'),
+         atoms={'overwrite': 'overwrite', 'os.path.exists(filepath)': 'path_exists'},
+         params=[('overwrite', 'Bool'), ('path_exists', 'Bool')], ret='Bool'),
+    dict(name='streamRewinds', file='torf/_torrent.py', func='Torrent.write_stream', pick=('if-test-guarding', 'stream.truncate(0)'),
+         atoms={'stream.seekable()': 'seekable'}, params=[('seekable', 'Bool')], ret='Bool'),
     # --- the parameter tables of magnet URIs (C13): literal tuples of names; an element that is itself a tuple
     #     contributes its first component
     dict(name='magnetKnownParameters', kind='strings', file='torf/_magnet.py', func='Magnet',
